@@ -437,3 +437,30 @@ def from_str_radix(width):
 for _t, _w in (("u8", 8), ("u32", 32), ("usize", 64), ("u64", 64), ("u16", 16)):
     for pre in ("core::num::<impl %s>::" % _t, "<impl %s>::" % _t, "%s::" % _t, "core::num::<impl " + _t + ">::"):
         S[pre + "from_str_radix"] = from_str_radix(_w)
+
+
+# ---------------- HashMap / BTreeMap with concrete string keys
+def _key(I, k):
+    s = as_str(I, k)
+    b = concrete_bytes(s)
+    if b is None: raise Unsupported("map lookup with a symbolic key")
+    return b
+
+
+@summary("HashMap::get", "BTreeMap::get", "std::collections::HashMap::get")
+def _(I, mp, k):
+    m = I.deref(mp)
+    e = m.d.get(_key(I, k))
+    return some(Ptr(Cell(e), (1,))) if e is not None else none()
+@summary("HashMap::contains_key", "BTreeMap::contains_key")
+def _(I, mp, k): return _key(I, k) in I.deref(mp).d
+@summary("HashMap::new", "BTreeMap::new", "<HashMap as Default>::default")
+def _(I): return MapObj()
+@summary("HashMap::insert", "BTreeMap::insert")
+def _(I, mp, k, v):
+    m = I.deref(mp); kb = _key(I, k)
+    old = m.d.get(kb)
+    m.d[kb] = Agg([k, v], "tuple")
+    return some(old.f[1]) if old is not None else none()
+@summary("HashMap::len", "BTreeMap::len")
+def _(I, mp): return len(I.deref(mp).d)
